@@ -297,7 +297,8 @@ func calcPositionIfNeededHevc(pkt *RtpPacket) {
 	// +-------------+-----------------+
 
 	outerNaluType := hevc.ParseNaluType(b[0])
-	if _, ok := hevc.NaluTypeMapping[outerNaluType]; ok {
+	if _, ok := hevc.NaluTypeMapping[outerNaluType]; ok || outerNaluType < NaluTypeHevcAp {
+		// rfc7798 4.4.1: type小于48的都是single nal unit packet，包括NaluTypeMapping中没有列出的类型
 		pkt.positionType = PositionTypeSingle
 		return
 	}
